@@ -168,6 +168,10 @@ def child_main(world, proc, args, stdin, stdout):
             if bare:
                 raise NameError("Popen2IO")
             P2 = world.gb.Popen2IO
+        # gevent / eventlet file objects sit on a non-blocking descriptor: raw writes are short, and a
+        # BufferedWriter keeps a tail of up to its buffer size until the next flush()
+        if getattr(execmodel, "backend", None) in ("gevent", "eventlet") and hasattr(stdout, "nonblocking"):
+            stdout.nonblocking = True
         io = P2(stdout, stdin, execmodel)
         proc.info["io_ready"] = True
         return io
